@@ -693,7 +693,11 @@ func flowsToRequestD(c *Ctx, f *ssa.Function, prm *ssa.Parameter, depth int) (fe
 						if a != v || i >= len(d.Static.Params) {
 							continue
 						}
-						f2, r2, _ := flowsToRequestD(c, d.Static, d.Static.Params[i], depth+1)
+						f2, r2, how2 := flowsToRequestD(c, d.Static, d.Static.Params[i], depth+1)
+						if f2 && c.P.IsNewFunc(d.Static) {
+							// the body that builds and sends the request moved into a helper that is new on this tree
+							return true, ret, how2 + " (in " + c.P.FuncKey(d.Static) + ")"
+						}
 						if f2 || r2 {
 							if cv, ok := x.(ssa.Value); ok {
 								work = append(work, cv)
